@@ -487,8 +487,6 @@ Proof.
   2:{ left. inversion H; subst. unfold all_null_run. repeat split; auto.
       destruct (nonnull feature); [reflexivity| discriminate]. }
   right.
-  destruct (finite_min (nonnull feature) fmin) as [lo|] eqn:Elo; [|discriminate].
-  destruct (finite_max (nonnull feature) fmax) as [hi|] eqn:Ehi; [|discriminate].
   assert (Hef : (1 <= n_bins_ef0 n_bins feature)%nat) by (unfold n_bins_ef0; lia).
   destruct m.
   - (* quantile *)
@@ -503,23 +501,21 @@ Proof.
     + pose proof (quantile_edges_length (nonnull feature) (n_bins_ef0 n_bins feature)). lia.
     + intros _. apply xstrict_sorted. apply quantile_edges_strict.
   - (* uniform *)
-    assert (Hu : match lo, hi with
-                 | Fin a, Fin b =>
-                     NOk (n_bins_ef0 n_bins feature + b2n (has_nulls feature))
-                       (uniform_edges a (b - a) (n_bins_ef0 n_bins feature))
-                       (edge_table fmin fmax (uniform_edges a (b - a) (n_bins_ef0 n_bins feature)))
-                       (digitize_rows kind fmin fmax (uniform_edges a (b - a) (n_bins_ef0 n_bins feature)) feature)
-                 | _, _ =>
-                     if (n_bins_ef0 n_bins feature <=? 1)%nat
-                     then NOk (n_bins_ef0 n_bins feature + b2n (has_nulls feature)) []
-                            (edge_table fmin fmax []) (digitize_rows kind fmin fmax [] feature)
-                     else NNanEdges
+    set (fin := fun es => NOk (n_bins_ef0 n_bins feature + b2n (has_nulls feature)) es
+                            (edge_table fmin fmax es) (digitize_rows kind fmin fmax es feature)) in *.
+    assert (Hu : match finite_min (nonnull feature) fmin, finite_max (nonnull feature) fmax with
+                 | Some l, Some h =>
+                     if xltb h l then fin []
+                     else match l, h with
+                          | Fin a, Fin b => fin (uniform_edges a (b - a) (n_bins_ef0 n_bins feature))
+                          | _, _ => NNanEdges
+                          end
+                 | _, _ => fin []
                  end = NOk n edges table rows).
     { destruct kind; [exact H|]. destruct (has_nulls feature); [discriminate| exact H]. }
     clear H.
     assert (Hgen : forall es, (S (List.length es) <= n_bins_ef0 n_bins feature)%nat -> xsorted es ->
-              NOk (n_bins_ef0 n_bins feature + b2n (has_nulls feature)) es (edge_table fmin fmax es)
-                  (digitize_rows kind fmin fmax es feature) = NOk n edges table rows ->
+              fin es = NOk n edges table rows ->
               exists fmin0 fmax0 m_out,
                 Some fmin = Some fmin0 /\ Some fmax = Some fmax0 /\
                 table = edge_table fmin0 fmax0 edges /\
@@ -529,11 +525,14 @@ Proof.
                 (Uniform <> NumpyRule -> m_out = n_bins_ef0 n_bins feature) /\
                 (Uniform = NumpyRule -> edges = map Fin interior) /\
                 (Uniform <> NumpyRule -> xsorted edges)).
-    { intros es Hlen Hsort Heq. inversion Heq; subst.
+    { intros es Hlen Hsort Heq. unfold fin in Heq. inversion Heq; subst.
       exists fmin, fmax, (n_bins_ef0 n_bins feature). repeat split; auto; try congruence. }
-    destruct lo as [|a|]; destruct hi as [|b|];
-      try (destruct (n_bins_ef0 n_bins feature <=? 1)%nat eqn:E1; [|discriminate];
-           apply (Hgen []); [simpl; lia| exact I| exact Hu]).
+    destruct (finite_min (nonnull feature) fmin) as [lo|] eqn:Elo;
+      [|apply (Hgen []); [simpl; lia| exact I| exact Hu]].
+    destruct (finite_max (nonnull feature) fmax) as [hi|] eqn:Ehi;
+      [|apply (Hgen []); [simpl; lia| exact I| exact Hu]].
+    destruct (xltb hi lo) eqn:Elt; [apply (Hgen []); [simpl; lia| exact I| exact Hu]|].
+    destruct lo as [|a|]; try discriminate; destruct hi as [|b|]; try discriminate.
     apply (Hgen (uniform_edges a (b - a) (n_bins_ef0 n_bins feature))); [| |exact Hu].
     + rewrite uniform_edges_length. lia.
     + apply uniform_edges_sorted.
@@ -543,6 +542,45 @@ Proof.
     exists fmin, fmax, (S (List.length interior)).
     repeat split; auto; try congruence.
     rewrite map_length. lia.
+Qed.
+
+(* C13 "every documented feature type is accepted", numeric part: a float / integer column
+   - with nulls, NaN, infinities, only nulls, only infinities - is never rejected and never
+   gets NaN edges (after /repo commits 9ce4ae5 and b2b5cba) *)
+Lemma finite_min_not_minf vals fmin l :
+  finite_min vals fmin = Some l -> l <> MInf.
+Proof.
+  destruct fmin; simpl; intros H.
+  - apply xmin_opt_spec in H. destruct H as [H _]. apply filter_In in H. destruct H as [_ H].
+    intros ->. discriminate.
+  - inversion H. discriminate.
+  - inversion H. discriminate.
+Qed.
+Lemma finite_max_not_pinf vals fmax h :
+  finite_max vals fmax = Some h -> h <> PInf.
+Proof.
+  destruct fmax; simpl; intros H.
+  - inversion H. discriminate.
+  - inversion H. discriminate.
+  - apply xmax_opt_spec in H. destruct H as [H _]. apply filter_In in H. destruct H as [_ H].
+    intros ->. discriminate.
+Qed.
+
+Theorem bin_numeric_accepts feature n_bins m interior :
+  (2 <= n_bins)%nat ->
+  exists n edges table rows, bin_numeric KNum feature n_bins m interior = NOk n edges table rows.
+Proof.
+  intros H2. unfold bin_numeric.
+  assert (E : (n_bins <? 2)%nat = false) by (apply Nat.ltb_ge; exact H2). rewrite E.
+  destruct (xmin_opt (nonnull feature)) as [fmin|]; [|do 4 eexists; reflexivity].
+  destruct (xmax_opt (nonnull feature)) as [fmax|]; [|do 4 eexists; reflexivity].
+  destruct m; try (do 4 eexists; reflexivity).
+  destruct (finite_min (nonnull feature) fmin) as [l|] eqn:El; [|do 4 eexists; reflexivity].
+  destruct (finite_max (nonnull feature) fmax) as [h|] eqn:Eh; [|do 4 eexists; reflexivity].
+  destruct (xltb h l) eqn:Elt; [do 4 eexists; reflexivity|].
+  pose proof (finite_min_not_minf _ _ _ El) as Hl. pose proof (finite_max_not_pinf _ _ _ Eh) as Hh.
+  destruct l as [|a|]; [congruence| |]; destruct h as [|b|]; try congruence;
+    try (do 4 eexists; reflexivity); discriminate.
 Qed.
 
 (* ------------------------------------------------------------------ *)
@@ -985,6 +1023,16 @@ Qed.
 Theorem label_is_count k : (k < 1000)%nat -> format_integer k = nat_str k.
 Proof. intros H. unfold format_integer. apply Nat.ltb_lt in H. rewrite H. reflexivity. Qed.
 
+(* ... string-like part: String, Categorical and Enum columns are never rejected *)
+Theorem bin_string_accepts kind names feature n_bins :
+  (2 <= n_bins)%nat ->
+  exists n kept label k bins, bin_string kind names feature n_bins = SOk n kept label k bins.
+Proof.
+  intros H2. unfold bin_string.
+  assert (E : (n_bins <? 2)%nat = false) by (apply Nat.ltb_ge; exact H2). rewrite E.
+  destruct (List.length (freq_table feature) <=? n_bins_ef0 n_bins feature)%nat; do 5 eexists; reflexivity.
+Qed.
+
 (* rows of a string-like feature: null <-> null bin; a category is kept under its own
    name or pooled *)
 Theorem sbin_total kind names feature n_bins n kept label k bins :
@@ -1080,6 +1128,7 @@ Example former_d8_example :
   = SOk 2 [0%nat] (Some "_other 3"%string) 3 [SBKeep 0; SBKeep 0; SBOther; SBOther; SBOther].
 Proof. vm_compute. reflexivity. Qed.
 
+Print Assumptions bin_numeric_accepts.
 Print Assumptions bin_total.
 Print Assumptions bin_contains.
 Print Assumptions bin_monotone.
@@ -1097,5 +1146,6 @@ Print Assumptions pooled_label_fresh.
 Print Assumptions pooled_label_fresh_enum.
 Print Assumptions old_loop_label_collides.
 Print Assumptions label_is_count.
+Print Assumptions bin_string_accepts.
 Print Assumptions sbin_total.
 Print Assumptions sgroups_le_n_bins.
